@@ -700,6 +700,12 @@ class Interp:
     def st_For(self, st, env):
         key = self._loop_key(env, st)
         it = self.eval(st.iter, env)
+        spec0 = self.loop_specs.get(key)
+        if spec0 is not None and isinstance(it, (SArr, SSeq)) or (spec0 is not None and isinstance(it, Opaque) and hasattr(it, "symbolic_iter")):
+            # a loop under contract is verified by its invariant also when its trip count happens to be concrete
+            n, item_at = self.symbolic_iter(it)
+            self.run_invariant_loop(st, env, key, spec0, n=n, item_at=item_at)
+            return
         items = self.iterate_concrete(it)
         if items is not None:
             if len(items) > self.max_unroll:
